@@ -445,7 +445,7 @@ impl PrettyPrinter {
                 self.column_widths[column_name],
             )
         });
-        row.join("").trim().to_string()
+        row.join("").trim_end().to_string()
     }
 
     pub fn format_aggregate(&mut self, aggregate: &data::Aggregate) -> String {
@@ -465,7 +465,7 @@ impl PrettyPrinter {
         });
         let header = header.join("");
         let header_len = header.chars().count();
-        let header = format!("{}\n{}", header.trim(), "-".repeat(header_len));
+        let header = format!("{}\n{}", header.trim_end(), "-".repeat(header_len));
         let mut body = aggregate
             .data
             .iter()
